@@ -25,6 +25,12 @@ def czero : Cx α := (zero, zero)
 def norm (a : Cx α) : α := a.1 * a.1 + a.2 * a.2
 end Cx
 
+/-- the wake scaling the delegating constructor hands on (before the division by the transform
+    length): `Ib·dt·c/σ_z/(ΔE_cell·σ_δ·E0)` with `qscale` = metres per unit of the position axis and
+    `delta1` the ENERGY cell size (proved equal to the generated expression in Props/Tie.lean) -/
+def wakeScalingArg (ib dt clight qscale delta1 sdelta e0 : α) : α :=
+  ib * dt * clight / qscale / (delta1 * sdelta * e0)
+
 /-- configuration of one field object -/
 structure EFConst (α : Type) where
   n : Nat                 -- grid width PhaseSpace::nx
